@@ -355,7 +355,18 @@ macro_rules! impl_tryfrom_integer {
 
             fn try_from(value: Token) -> Result<Self, Self::Error> {
                 match value {
-                    Token::DecimalNumericProgramData(value) => lexical_core::parse::<$from>(value)
+                    // Parsed as i128 and narrowed: lexical-core does not detect every overflow of
+                    // a number with the maximum digit count of the parsed type (u8 `999` => 231)
+                    Token::DecimalNumericProgramData(value) => lexical_core::parse::<i128>(value)
+                        .and_then(|wide| {
+                            <$from>::try_from(wide).map_err(|_| {
+                                if wide < 0 {
+                                    lexical_core::Error::Underflow(0)
+                                } else {
+                                    lexical_core::Error::Overflow(0)
+                                }
+                            })
+                        })
                         .or_else(|e| {
                             if matches!(e, lexical_core::Error::InvalidDigit(_)) {
                                 let value = lexical_core::parse::<$intermediate>(value)?;
